@@ -49,3 +49,8 @@ b(g, 'registry-get-is-stock', "all(datatypes.Registry().get(n) is datatypes.stoc
 b(g, 'regex-call-not-overridden',
   "all('__call__' not in vars(c) for c in (datatypes.IdentifierConversion, datatypes.DottedNameConversion, "
   "datatypes.DottedNameSuffixConversion, datatypes.ASCIIConversion))", carries='C09')
+
+# ---- C16: the composite handler normalises names with the stock basic-key conversion ----------
+g = 'bind:handlers'
+b(g, 'registry-basic-key', "datatypes.Registry().get('basic-key') is datatypes.stock_datatypes['basic-key'] and "
+                           "type(datatypes.stock_datatypes['basic-key']) is datatypes.BasicKeyConversion", carries='C16')
